@@ -39,6 +39,7 @@ type scenario struct {
 	Common []vlib.ExpAttr
 	// second record: after the first one, logger Mutate (index, -1 none) gets MoreAttrs, then the
 	// last logger logs again with Call2
+	FlagsHow  int // which public way sets the flags (vlib.SetFlagsVia)
 	Mutate    int
 	MoreAttrs []vlib.ExpAttr
 	Call2     []vlib.ExpAttr
@@ -113,6 +114,7 @@ func genScenario(t *rapid.T) scenario {
 		sc.Call = genList(t, 31, 64, 0)
 	}
 	sc.Verb = rapid.IntRange(0, 2).Draw(t, "verb")
+	sc.FlagsHow = rapid.SampledFrom([]int{0, 0, 1, 2, 3}).Draw(t, "flagsHow")
 	if rapid.IntRange(0, 3).Draw(t, "commonAttrs1") == 0 {
 		sc.Common = []vlib.ExpAttr{{Key: "cm", Val: vlib.Value{Kind: "string", V: "common"}}}
 	}
@@ -168,7 +170,7 @@ func run(t *rapid.T, test string, sc scenario) {
 	if sc.Inherit {
 		flags |= slog.LattrsR
 	}
-	slog.SetFlags(flags)
+	vlib.SetFlagsVia(sc.FlagsHow, flags, slog.LattrsR|slog.Lattrs|slog.Lcaller)
 	log := vlib.NewEventLog()
 	w := vlib.NewRec(log, 1, 0)
 
